@@ -401,14 +401,25 @@ def rule_tail(ctx):
     ctx.analysed(ec, ed)
     fl = [c for c in calls_in(ec.node) if isinstance(c.func, ast.Attribute) and c.func.attr == "flush"]
     ctx.ob("end_compress_message flushes with Z_SYNC_FLUSH", len(fl) == 1 and [norm.text(a) for a in fl[0].args] == ["zlib.Z_SYNC_FLUSH"], "flush mode changed", ec.loc())
-    rets = [s for s in walk_no_defs(ec.node) if isinstance(s, ast.Return)]
-    n_strip = None
-    if len(rets) == 1 and isinstance(rets[0].value, ast.Subscript) and isinstance(rets[0].value.slice, ast.Slice) and rets[0].value.slice.lower is None:
-        ok, v = ctx.program.try_const(rets[0].value.slice.upper, ec.module, pm)
-        if ok and isinstance(v, int) and v < 0:
-            n_strip = -v
-    feeds = [c for c in calls_in(ed.node) if isinstance(c.func, ast.Attribute) and c.func.attr == "decompress" and c.args and isinstance(c.args[0], ast.Constant)]
-    lit = feeds[0].args[0].value if len(feeds) == 1 else None
+    # decided by abstract evaluation (sa.core.tiny): what end_compress_message returns for a flush result that ends in the sync-flush tail, and
+    # what end_decompress_message feeds the inflater -- independent of temporaries and of where the tail constant is named
+    from ..core.tiny import Tiny, Sym, _to_py
+    flushed = b"deflated-block" + b"\x00\x00\xff\xff"
+    fed = []
+    n_strip, lit = None, None
+    try:
+        comp = Sym("compressor", methods={"flush": lambda *a_: flushed, "compress": lambda d_: d_})
+        r = Tiny({"self": Sym("pmce"), "self._compressor": comp}, default_call=lambda f_, a_, k_=None: Sym(f"<{f_}>"), model_strings=True, opaque_globals=True).run(
+            [x for x in ec.node.body if not (isinstance(x, ast.Expr) and isinstance(x.value, ast.Constant))])
+        if r[0] == "return" and isinstance(_to_py(r[1]), bytes) and flushed.startswith(_to_py(r[1])):
+            n_strip = len(flushed) - len(_to_py(r[1]))
+        dec = Sym("decompressor", methods={"decompress": lambda d_, *a_: fed.append(_to_py(d_)) or b""})
+        Tiny({"self": Sym("pmce"), "self._decompressor": dec, "self._oversized": False, "self.max_message_size": 0, "self._decompressed_len": 0},
+             default_call=lambda f_, a_, k_=None: Sym(f"<{f_}>"), model_strings=True, opaque_globals=True).run(
+            [x for x in ed.node.body if not (isinstance(x, ast.Expr) and isinstance(x.value, ast.Constant))])
+        lit = fed[0] if len(fed) == 1 and isinstance(fed[0], bytes) else None
+    except AnalysisError as e:
+        raise AnalysisError(f"[C12.5-sync-flush-tail] end_compress_message / end_decompress_message outside the modelled subset: {e}")
     ctx.ob("sender strips exactly the octets the receiver re-appends", n_strip is not None and lit is not None and n_strip == len(lit),
            f"stripped {n_strip} octets, re-appended {lit!r}", ec.loc())
     ctx.ob("re-appended tail is the empty stored block 00 00 ff ff", lit == b"\x00\x00\xff\xff", f"tail {lit!r}", ed.loc())
@@ -416,8 +427,52 @@ def rule_tail(ctx):
     ctx.ob("compress_message_data feeds the running compressor", any(norm.text(c.func) == "self._compressor.compress" and [norm.text(a) for a in c.args] == ["data"] for c in calls_in(cd.node)), "changed", cd.loc())
 
 
+def _begin_message_cells(ctx):
+    """Streaming API: beginMessage(doNotCompress) decides for the whole message whether it is compressed.  Cell-wise over (extension negotiated,
+    doNotCompress, flag left over from the previous message): afterwards the message is marked compressed exactly when an extension is active
+    and the caller did not opt out -- a stale flag of the previous message never survives -- and the compressor is started exactly then."""
+    from ..core.tiny import Tiny, Sym
+    from .common import inline_private
+    import itertools
+    wsp = ctx.program.cls(WSP)
+    fn = wsp.methods["beginMessage"]
+    ctx.analysed(fn)
+    prm = fn.params()
+    consts = {k_: ctx.program.class_const(wsp, k_) for k_ in ("STATE_OPEN", "SEND_STATE_GROUND", "SEND_STATE_MESSAGE_BEGIN", "MESSAGE_TYPE_TEXT", "MESSAGE_TYPE_BINARY")}
+    body = [x for x in fn.node.body if not (isinstance(x, ast.Expr) and isinstance(x.value, ast.Constant))]
+    probs = []
+    n = 0
+    try:
+        for pmc, dnc, stale in itertools.product((True, False), (True, False), (True, False, "unset")):
+            started = []
+            ext = Sym("pmce", methods={"start_compress_message": lambda: started.append(1)}) if pmc else None
+            env = {"self": Sym("protocol"), "self.state": consts["STATE_OPEN"], "self.send_state": consts["SEND_STATE_GROUND"], "self._perMessageCompress": ext,
+                   prm[1]: False, prm[2]: dnc, "self.trafficStats": Sym("stats", outgoingWebSocketMessages=0), "WebSocketProtocol": Sym("class", **consts), "self.log": Sym("log")}
+            env.update({f"WebSocketProtocol.{k_}": v_ for k_, v_ in consts.items()})
+            if stale != "unset":
+                env["self.send_compressed"] = stale
+            t = Tiny(env, default_call=lambda f_, a_, k_=None: Sym(f"<{f_}>"), inline_self=inline_private(ctx, wsp), opaque_globals=True)
+            r = t.run(body)
+            n += 1
+            tag = f"extension {'negotiated' if pmc else 'absent'}, doNotCompress={dnc}, flag of the previous message {stale}"
+            if r[0] == "raise":
+                probs.append(f"{tag}: raises {r[1]}")
+                continue
+            got = t.env.get("self.send_compressed", t.env["self"].attrs.get("send_compressed", "unset"))
+            want = pmc and not dnc
+            if got is not want:
+                probs.append(f"{tag}: message marked compressed={got}, expected {want}")
+            if bool(started) != want or len(started) > 1:
+                probs.append(f"{tag}: compressor started {len(started)} time(s)")
+    except AnalysisError as e:
+        raise AnalysisError(f"[C12.6-rsv1-and-donotcompress-gating] beginMessage outside the modelled subset: {e}")
+    ctx.ob(f"beginMessage: the message is compressed iff an extension is active and not doNotCompress, whatever the previous message was [{n} cells]",
+           not probs, "; ".join(probs[:2]), fn.loc())
+
+
 def rule_rsv1(ctx):
     ctx.rule("C12.6-rsv1-and-donotcompress-gating")
+    _begin_message_cells(ctx)
     an = get_analysis(ctx)
     wsp = ctx.program.cls(WSP)
     sm = wsp.methods["sendMessage"]
